@@ -616,6 +616,8 @@ def judge(inst, var, out, tr):
 def judge_group(inst, variants, outs, tr):
     """warm starts / heuristics / LNS never change the verdict: all runs with default limits and solution_limit = 1 must
     agree on the status and (within the gap tolerance) on the objective."""
+    if tr[0] == "CAP":
+        return None                     # the documented default LP iteration limit is the expected answer here
     ref = None
     for var, out in zip(variants, outs):
         if "fail" in out or var.get("max_iter") is not None or var.get("max_nodes") is not None or var.get("solution_limit", 1) != 1:
@@ -814,8 +816,15 @@ def alias_check(inst, variants, outs):
         return var, (f"after editing the caller's objects in place ({', '.join(edits)}) the call on the SAME objects gave {again.get('status')} "
                      f"{again.get('solution')} {again.get('objective')}, a fresh call on a copy of the edited input gave {fresh.get('status')} "
                      f"{fresh.get('solution')} {fresh.get('objective')} (edited input: c={inst2['c']} A={inst2['A']} b={inst2['b']} ints={inst2['ints']})")
+    t2 = None
     try:
-        t2 = truth(inst2) if int_box(inst2) is not None else None
+        if small_enough(inst2):
+            box = int_box(inst2)
+            size = 1
+            for u in (box if isinstance(box, list) else []):
+                size *= max(1, u + 1)
+            if box is not None and size <= 5000:
+                t2 = truth(inst2)
     except (ValueError, AssertionError):
         t2 = None
     if t2 is not None:
@@ -920,6 +929,9 @@ def check_malformed(ctx):
         ctx.evaluations += 1
         ok = res[0] == "exc" and res[1] == exc
         ctx.count("malformed", f"{name}: {'raises ' + exc if ok else res}")
+        if not ok and name.startswith("duplicate"):
+            ctx.count("observation_only_rejects", "observation:duplicate-index: " + str(res)[:60])       # POLICY_X (d): outside the property
+            continue
         if not ok:
             ctx.violation(f"solve_milp accepts malformed input ({name}): expected {exc}, got {res}", {"kind": "malformed", "args": list(args)})
 
@@ -970,6 +982,9 @@ def run(ctx: Ctx):
         "option eps = 0.0 is not swept (a zero tolerance in float arithmetic is outside sensible input; observation in "
         "corpus/C04/observations/eps_zero.json: solve_milp(..., eps=0.0) can answer INFEASIBLE for a feasible problem); eps is swept over "
         "1e-9, 1e-7, 1e-6",
+        "outside the property, OBSERVATION-ONLY (coordinator's POLICY_X: counted in histogram observation_only_rejects, never a violation): "
+        "NaN / +-inf as data (families observation:nan-entry, observation:inf-rhs), costs near 1e308, integer data whose exact sums exceed "
+        "2^53 (observation:cancel-2^60), the same index listed twice in `integers`",
         "cost vectors whose coefficients differ by a ratio > 1e6 (2^40 + a unit cost) are observation-only (family observation:cost-ratio, "
         "histogram observation_only_rejects): since commit 39737f0 solve_lp scales the objective row and a cost below 1e-10 * max|c| no "
         "longer enters - solve_lp([-1, 5497558138881], [[1,0],[0,1]], [2,2]) -> OPTIMAL 0, optimum -2 (corpus/C04/observations/"
